@@ -14,16 +14,39 @@ def logStr (l : List Ev) : String := if l.isEmpty then "-" else ",".intercalate 
 /-- index of the first occurrence. -/
 def evIndex (l : List Ev) (e : Ev) : Option Nat := l.findIdx? (· = e)
 
-/-- the plan presented by the caller: the fresh one, or (stale) anything else. -/
-def presentedPlan (v : Variant) (m : Mem) (c : PipeCfg) (stale : Bool) : List Act :=
+/-- the plan view computed now (`Plan(desired)`): `none` when Export fails. -/
+def freshView (v : Variant) (m : Mem) (c : PipeCfg) : Option PlanView :=
   match exportPl v m c.id with
-  | .error _ => []
-  | .ok old => if stale then .deletePl c 0 :: build v 1 old c else build v 1 old c
+  | .error _ => none
+  | .ok old => some (planView v old c)
+
+/-- the plan presented by the caller: `sel = 0` the fresh one, `1` a bogus hash, `2` the plan
+remembered from an earlier `Plan` call (`kept`; bogus if there is none). -/
+def presentedPlan (v : Variant) (m : Mem) (c : PipeCfg) (sel : Nat) (kept : Option PlanView) : PlanView :=
+  let bogus : PlanView := ([{ res := 9, id := 0, act := 9, restart := false, paths := ["bogus"], live := false }], c)
+  match sel with
+  | 0 => (freshView v m c).getD bogus
+  | 2 => kept.getD bogus
+  | _ => bogus
+
+def changeStr (c : Change) : String :=
+  let r := if c.res = 0 then "pipeline" else if c.res = 1 then "connector" else "processor"
+  let a := if c.act = 0 then "create" else if c.act = 1 then "update" else "delete"
+  s!"{r}:{c.id}:{a}:{if c.restart then "restart" else "in_place"}:{"+".intercalate c.paths}:{if c.live then 1 else 0}"
+
+def viewStr (o : Option PlanView) : String :=
+  match o with
+  | none => "-"
+  | some (chs, _) => if chs.isEmpty then "empty" else ",".intercalate (chs.map changeStr)
 
 /-- The C16 monitor for one `ApplyPlanLive` step; `none` = holds. -/
-def liveMonitor (v : Variant) (s : St) (c : PipeCfg) (allow stale : Bool) (env : LiveEnv) (k : Option Nat) : Option String :=
+def liveMonitor (v : Variant) (s : St) (c : PipeCfg) (allow : Bool) (sel : Nat) (kept : Option PlanView) (env : LiveEnv)
+    (k : Option Nat) : Option String :=
   let s0 : St := { s with ctr := 0, failAt := k }
-  let r := applyPlanLive v c (presentedPlan v s.mem c stale) allow env s0
+  let presented := presentedPlan v s.mem c sel kept
+  -- stale = the presented plan is not the plan computed now (changes incl. config paths, desired)
+  let stale : Bool := some presented != freshView v s.mem c
+  let r := applyPlanLive v c presented allow env s0
   let n := s.next
   let pre := content n s
   let post := content n r.2.1
